@@ -1248,9 +1248,10 @@ func (pt ProvidedType) Field() *Field {
 // bindShouldUsePointer loads the wire package the user is importing from their
 // injector. The call is a wire marker function call.
 func bindShouldUsePointer(info *types.Info, call *ast.CallExpr) bool {
-	// These type assertions should not fail, otherwise panic.
-	fun := call.Fun.(*ast.SelectorExpr)                 // wire.Bind
-	pkgName := fun.X.(*ast.Ident)                       // wire
-	wireName := info.ObjectOf(pkgName).(*types.PkgName) // wire package
-	return wireName.Imported().Scope().Lookup("bindToUsePointer") != nil
+	// call.Fun is wire.Bind, possibly unqualified (dot import): look at the package that declares it.
+	fn := qualifiedIdentObject(info, call.Fun)
+	if fn == nil || fn.Pkg() == nil {
+		return false
+	}
+	return fn.Pkg().Scope().Lookup("bindToUsePointer") != nil
 }
